@@ -11,9 +11,12 @@ MC_INVARIANTS = ("ArithmeticEqualsProvenance TextIsItemsWithoutMarkers RangesIns
 
 ASSUMPTIONS_C13 = [
     "attribute order is not compared (multiset); properties are compared as maps; SourcePosition is not compared (DESIGN appendix D)",
-    "a marker is never opened while one of the same name is open; every marker is closed; no explicit [character] marker; "
+    "a name opened while it is already open: a close marker pairs with the first open marker of that name (this port) or with the most recent one "
+    "(upstream) - whichever of the two explains ALL lines of the run; every marker is closed; no explicit [character] marker; "
     "a colon only occurs in a plain leading `Name:` prefix",
-    "whitespace swallowing by a self-closing marker is exercised only at line start or directly after a literal character / the prefix",
+    "a self-closing marker is not generated directly after an escaped bracket (there the code looks at the character before the backslash); everywhere else "
+    "it swallows one following whitespace character exactly when it sits at output position 0 or directly after a literal whitespace character",
+    "replacement markers in open form ([select ...]contents[/select] or ...[/]): marker and contents are replaced by the selected text",
     "when the text has whitespace at an edge, either the trimmed text with shifted+clipped ranges or the untrimmed text with the "
     "ranges as counted is accepted",
     "decimal property values are compared with a tolerance of 1e-10 relative to 10^-4 units (at most 4 fraction digits, integer part < 10^4); "
